@@ -89,3 +89,77 @@ def ob_params_not_mutated(entry_keys: list[str], module_prefixes: tuple[str, ...
         return Outcome.ok("frames", count=max(n, 1))
 
     return fn
+
+
+# ---- memoised functions: the cache key is == on the arguments --------------------------------------------------
+MEMO_TWINS = [(True, 1), (1, True), (True, 1.0), (1.0, True), (1, 1.0), (1.0, 1), (False, 0), (0, False), (False, 0.0), (0.0, False), (0, 0.0), (0.0, 0), (0.0, -0.0), (-0.0, 0.0)]
+
+
+def probe_memo_twins(keys: list[str]):
+    """Concrete probe for `memo_key` effects: for every flagged one-argument function, ask it about b right after
+    a (a == b, a is not b) and compare with a cold cache. Returns (failed, text)."""
+    import importlib
+    import inspect
+
+    out = []
+    ran = 0
+    for key in keys:
+        mod, qual = key.split(":")
+        obj = importlib.import_module(mod)
+        for part in qual.split("."):
+            obj = getattr(obj, part)
+        if not hasattr(obj, "cache_clear"):
+            continue
+        try:
+            npos = [p for p in inspect.signature(obj).parameters.values() if p.default is inspect.Parameter.empty and p.kind in (p.POSITIONAL_ONLY, p.POSITIONAL_OR_KEYWORD)]
+        except (TypeError, ValueError):
+            continue
+        if len(npos) != 1:
+            continue
+        for a, b in MEMO_TWINS:
+            try:
+                obj.cache_clear()
+                cold = obj(b)
+                obj.cache_clear()
+                obj(a)
+                warm = obj(b)
+                obj.cache_clear()
+            except Exception:  # noqa: BLE001 - the function does not take numbers: nothing to compare
+                continue
+            ran += 1
+            if type(cold) is not type(warm) or repr(cold) != repr(warm):
+                out.append(f"{key}({b!r}) = {cold!r} on a cold cache but {warm!r} after {key.split(':')[-1]}({a!r})")
+    if out:
+        return True, "; ".join(out[:4])
+    return False, f"{ran} twin pairs answered alike"
+
+
+def replay_memo_twins(keys):
+    return probe_memo_twins(list(keys))
+
+
+def ob_memo_keys(entry_keys: list[str]):
+    """Every memoised function in the closure is keyed by arguments whose == implies indistinguishability (text,
+    bytes, paths, enum members; ints only with typed=True; never floats / Any). Otherwise the answer depends on the
+    call history of the process. The shape rule is conservative, so a flagged memo is reported only when the concrete
+    twin probe shows two answers; a flagged memo whose probe passes is undecided, never a violation."""
+
+    def fn(ctx: Ctx) -> Outcome:
+        from verif.common import shape_verdict
+
+        p = package()
+        bad: dict[str, str] = {}
+        n = 0
+        for ent in entry_keys:
+            if ent not in p.funcs:
+                return Outcome.undecided("frames", f"{ent} not found in the working tree")
+            for k, e in p.closure_effects(ent):
+                n += 1
+                if e.kind == "memo_key":
+                    bad[k] = e.detail
+        if not bad:
+            return Outcome.ok("frames", count=max(n, len(entry_keys)))
+        keys = sorted(bad)
+        return shape_verdict("frames", [f"{k}: {bad[k]}" for k in keys], lambda: probe_memo_twins(keys), count=max(n, 1), replay={"runner": "props.framesobs:replay_memo_twins", "args": {"keys": keys}})
+
+    return fn
